@@ -32,7 +32,7 @@ type rangeKind struct {
 }
 
 var rangeKinds = []rangeKind{
-	{name: "slice", keyT: "int", valT: "int", forms: []string{"kv", "k", "_v", "k_", "none"},
+	{name: "slice", keyT: "int", valT: "int", forms: []string{"kv", "k", "_v", "k_", "none", "kdep"},
 		values:  map[string]string{"three": "[]int{1, 2, 3}", "nil": "[]int(nil)", "empty": "[]int{}", "one": "[]int{7}", "spare": "append(make([]int, 0, 8), 1, 2, 3)"},
 		vorder:  []string{"three", "nil", "empty", "one", "spare"},
 		scripts: map[string]string{"none": "", "append": "xs = append(xs, 9)", "ahead": "if len(xs) > 2 { xs[2] = 100 }", "behind": "xs[0] = 200", "reslice": "xs = xs[:1]", "setnil": "xs = nil"},
@@ -44,7 +44,7 @@ var rangeKinds = []rangeKind{
 		scripts: map[string]string{"none": "", "ahead": "xs[2] = 100", "behind": "xs[0] = 200"},
 		sorder:  []string{"none", "ahead", "behind"},
 		after:   "fmt.Sprint(xs)"},
-	{name: "string", keyT: "int", valT: "rune", forms: []string{"kv", "k", "_v", "k_", "none"},
+	{name: "string", keyT: "int", valT: "rune", forms: []string{"kv", "k", "_v", "k_", "none", "kdep"},
 		values:  map[string]string{"mixed": `"aé€"`, "empty": `""`, "ascii": `"ab"`, "invalid": `"\xff\xc3"`, "truncated": `"é\xe2\x82z"`},
 		vorder:  []string{"mixed", "empty", "ascii", "invalid", "truncated"},
 		scripts: map[string]string{"none": "", "reassign": `xs = "zz"`},
@@ -109,7 +109,7 @@ func (p rangeProg) text(id string) string {
 	w(1, "xs := %s", k.values[p.value])
 	w(1, "_ = xs")
 	isMap := k.name == "map" || k.name == "mapany" || k.name == "mapnan"
-	hasK := p.form == "kv" || p.form == "k" || p.form == "k_"
+	hasK := p.form == "kv" || p.form == "k" || p.form == "k_" || p.form == "kdep"
 	hasV := p.form == "kv" || p.form == "_v"
 	var hdr string
 	switch p.form {
@@ -123,6 +123,10 @@ func (p rangeProg) text(id string) string {
 		hdr = "k, _ " + p.tok
 	case "none":
 		hdr = ""
+	case "kdep":
+		// the second operand depends on the first: as in an assignment, its index is evaluated
+		// before the key is assigned
+		hdr = "k, dst[k%8] " + p.tok
 	}
 	if p.tok == "=" {
 		if hasK {
@@ -131,6 +135,9 @@ func (p rangeProg) text(id string) string {
 		if hasV {
 			w(1, "var v %s", k.valT)
 		}
+	}
+	if p.form == "kdep" {
+		w(1, "dst := make([]%s, 8)", k.valT)
 	}
 	w(1, "n := 0")
 	if isMap {
@@ -221,6 +228,9 @@ func (p rangeProg) text(id string) string {
 	if !(k.name == "map" && p.value == "three" && p.script == "delothers") {
 		obs = append(obs, k.after)
 	}
+	if p.form == "kdep" {
+		obs = append(obs, "fmt.Sprint(dst)")
+	}
 	w(1, "c.X(5, fmt.Sprint(%s))", strings.Join(obs, ", "))
 	w(1, "Yield(c.V(6))")
 	w(1, "return nil")
@@ -252,7 +262,7 @@ func rangePrograms(tier string, goInt bool) []rangeProg {
 		_ = places
 		for _, form := range k.forms {
 			for _, tok := range rToks {
-				if form == "none" && tok == "=" {
+				if form == "none" && tok == "=" || form == "kdep" && tok == ":=" {
 					continue
 				}
 				for _, place := range places {
